@@ -969,6 +969,10 @@ func ParseBranchStmt(p *ParserZH) *syntax.BranchStmt {
 			return stmt
 		}
 	}
+	// the if-branch is required: 如果 at the very end of the input has neither condition nor block
+	if hState == stateInit {
+		panic(p.getInvalidSyntaxPeek())
+	}
 	return stmt
 }
 
